@@ -184,6 +184,11 @@ func (c Slash) NewWorker(stats *engine.Stats) (engine.Worker, error) {
 		if err := must(&n.P, env.MsgDelegate(p.Delegator, p.Vals[2], unit)); err != nil {
 			return nil, err
 		}
+		// ... and v1 (which uses an assigned key on consumer 0) has left consumer 0's set on the provider
+		// while the consumer does not know yet: its reports against v1 are declined and must be acknowledged
+		if err := must(&n.P, env.MsgOptOut(p.Vals[1], "0")); err != nil {
+			return nil, err
+		}
 		if r := xw.PBlock(n.XNode, 0, nil); r.Halt() != "" {
 			return nil, fmt.Errorf("prefix block: %s", r.Halt())
 		}
@@ -256,7 +261,8 @@ func (w *slWorker) build() {
 	var reps []rep
 	switch w.cfg.Variant {
 	case "ackloop":
-		reps = []rep{{"0", "v2", w.consAddrOn(2, "0"), stakingtypes.Infraction_INFRACTION_DOWNTIME}, {"0", "v3", w.consAddrOn(3, "0"), stakingtypes.Infraction_INFRACTION_DOWNTIME}}
+		reps = []rep{{"0", "v2", w.consAddrOn(2, "0"), stakingtypes.Infraction_INFRACTION_DOWNTIME}, {"0", "v3", w.consAddrOn(3, "0"), stakingtypes.Infraction_INFRACTION_DOWNTIME},
+			{"0", "v1", w.consAddrOn(1, "0"), stakingtypes.Infraction_INFRACTION_DOWNTIME}}
 	case "epoch3":
 		reps = []rep{{"0", "v2", w.consAddrOn(2, "0"), stakingtypes.Infraction_INFRACTION_DOWNTIME}, {"0", "v3", w.consAddrOn(3, "0"), stakingtypes.Infraction_INFRACTION_DOWNTIME},
 			{"1", "v2", w.consAddrOn(2, "1"), stakingtypes.Infraction_INFRACTION_DOWNTIME}}
@@ -606,7 +612,13 @@ func (w *slWorker) deliverSlash(x *slNode, cid string) (engine.Node, []V) {
 	if res.Success {
 		ackStr = fmt.Sprint(ackResult(res.Ack))
 	}
-	gained := len(postAcks) == len(preAcks)+1
+	// an acknowledgement is owed under the address the consumer reported (that is the key of its
+	// outstanding-report flag); anything else cannot clear the report
+	wantAck := sdk.ConsAddress(d.Validator.Address).String()
+	gained := len(postAcks) == len(preAcks)+1 && postAcks[len(postAcks)-1] == wantAck
+	if len(postAcks) == len(preAcks)+1 && !gained {
+		vs = append(vs, vf("C08", "slash-ack-wrong-address", "consumer %s reported %s; the provider recorded the acknowledgement under %s, which the consumer cannot match to its outstanding report", cid, wantAck, postAcks[len(postAcks)-1]))
+	}
 	changed := func(i int) bool { return !bytes.Equal(snaps[i].bz, w.snap(post, i).bz) }
 	nobodyChanged := func(why string) {
 		for i := range p.Vals {
